@@ -4,7 +4,7 @@ from session_common import *
 ID = 'C15'
 COQ_TARGETS = ['Props/Properties_C15.vo']
 PROPS_FILES = ['Props/Properties_C15.v']
-THEOREMS = ['C15_data_limits', 'C15_size_parameter', 'C15_rcpt_limit', 'C15_bad_commands', 'C15_constants']
+THEOREMS = ['C15_data_limits', 'C15_verdict_checker_sound', 'C15_size_parameter', 'C15_rcpt_limit', 'C15_bad_commands', 'C15_constants']
 ENGINES = [ENGINE]
 RULE = ('sessions aimed at the limits: control/databytes in {0, 150, 400} with messages whose size counter lands within +-3 of the limit, '
         'with and without dot-stuffed lines (stored vs transmitted size differ) and empty lines; SIZE= at limit-1, limit, limit+1; 98..102 '
